@@ -15,7 +15,7 @@ sed -i "s#\"/repo#\"$W#g" "$V/harness/Cargo.toml"
 rc=0
 for P in ${PROPS//,/ }; do
   echo "=== $P ($TIER) on mutant $(basename "$PATCH")"
-  (cd "$V" && VERIF_REPO="$W" ./check "$P" --tier "$TIER" 2>&1 | grep -E "^(VIOLATION|KNOWN-FINDING|OK|tool error)|signature" | head -${MUT_LINES:-12})
+  (cd "$V" && VERIF_REPO="$W" ./check "$P" --tier "$TIER" > "$V/mut_$P.log" 2>&1; grep -E "^(VIOLATION|KNOWN-FINDING|OK|tool error)|signature" "$V/mut_$P.log" | head -${MUT_LINES:-12})
   s=${PIPESTATUS[0]}
   out=$(cd "$V" && ls work/replay/$P 2>/dev/null | wc -l)
   if (cd "$V" && [ -d work/replay/$P ] && [ "$out" -gt 0 ]); then :; fi
